@@ -365,3 +365,14 @@ def c32(ctx):
                 "written in module NT (brute force: divisors, Euclid-free gcd, residues by enumeration, symbols by "
                 "factorisation, recurrences over exact rationals)")
     simple(ctx, "MC_C32", "Trace_C32", floor=0.9)
+
+
+@plan("C37")
+def c37(ctx):
+    ctx.rule = ("TLC enumerates lists of one to three expressions built around 14 shared parts (sub-sums, "
+                "sub-products, powers, functions) in 15 contexts, and lists whose own symbols are named like "
+                "replacement symbols; TLC validates freshness and distinctness of the replacement symbols, that each "
+                "replacement mentions earlier replacement symbols only, that back-substitution (last to first) "
+                "returns objects equal to the inputs, and independently that each reduced expression evaluated in the "
+                "environment extended by the replacements has the value of its input")
+    simple(ctx, "MC_C37", "Trace_C37", floor=0.9)
